@@ -50,7 +50,8 @@ LOG_LITS = [".true.", ".false.", ".TRUE.", ".false._lk"]
 BOZ_LITS = ["b'101'", "o'17'", "z'FF'", 'Z"1a"']
 STR_LITS = ["'abc'", '"abc"', "'it''s'", '"say ""hi"""', "'a!b'", "'x & y'", "'a;b'", "'(x)'", '"don\'t"',
             "''", "' '", "'a, b'", "\"it's (ok)\"", "'1.0e-3'", "'.and.'", "'''q'",
-            "'end'", "'ab c'", "\"'ab c'\"", "'use !$ here'", '"c$ *$ !$omp x"', "'#if 0'", "'a // b'", "'x=1;;y'"]
+            "'end'", "'ab c'", "\"'ab c'\"", "'use !$ here'", '"c$ *$ !$omp x"', "'#if 0'", "'a // b'", "'x=1;;y'",
+            "'a\x0cb'", "'\u00e9t\u00e9'", '"sep\u2028x"']
 
 
 def has_top_dotted(e):
